@@ -13,6 +13,9 @@ from lib import core
 
 def cmd_setup(_):
     t = core.build_harness()
+    for d in sorted(os.listdir(core.ROOT)):
+        if d.startswith("harness_") and os.path.exists(os.path.join(core.ROOT, d, "go.mod")):
+            t += core.build_harness(d)
     ok, tail = core.coq_make()
     print("harness built in %.1fs; coq make %s" % (t, "ok" if ok else "FAILED"))
     if not ok:
@@ -31,6 +34,8 @@ def cmd_check(a):
     mod = importlib.import_module("props." + pid.lower())
     try:
         core.build_harness()
+        for extra in getattr(mod, "HARNESSES", []):
+            core.build_harness(extra)
     except core.BuildError as e:
         core.log(str(e))
         print("BUILD-ERROR property=%s: /repo does not build with the verif tag; no verdict" % pid)
